@@ -70,6 +70,8 @@ def strategy(tier):
             q = draw(small)
             par["other"] = q
             par["interleave"] = draw(st.booleans())
+        # the transformed problem is swept in a drawn order of the three series (the original in the default order)
+        par["req_order"] = list(draw(st.permutations(range(3))))
         return {"problem": p, "transform": t, "par": par}
 
     return cases()
@@ -303,7 +305,7 @@ def check_case(case, enforce_all=False):
     ctx0, res0 = mm.outputs(p, out, "original problem")
     if res0 is None:
         return out
-    ctx1, res1 = mm.outputs(q, out, f"transformed problem ({t})")
+    ctx1, res1 = mm.outputs(q, out, f"transformed problem ({t})", order=case["par"].get("req_order"))
     if res1 is None:
         return out
     if t == "shift":
@@ -347,7 +349,7 @@ def _check_direct_sum(case, out, p, q, info):
     ctxo, reso = mm.outputs(o2, out, "second summand")
     if reso is None:
         return out
-    ctxq, resq = mm.outputs(q, out, "direct sum")
+    ctxq, resq = mm.outputs(q, out, "direct sum", order=case["par"].get("req_order"))
     if resq is None:
         return out
     idx_p = [x for x, (w, a) in enumerate(src) if w == "p"]
